@@ -1,5 +1,5 @@
 #!/usr/bin/env python3
-"""C10 improvement round: the hand-written rewrites of tower-resilience-cache tried against the C10 check (v_* functions;
+"""C10 improvement rounds: the hand-written rewrites of tower-resilience-cache tried against the C10 check (v_* functions;
 H = property-preserving, B = property-breaking). Needs a scratch copy: /tmp/cache-scratch/{repo (rsync of /repo without target/.git),
 hsrc (copy of /verif/harness with Cargo.toml paths rewritten), orig-src (pristine crates/tower-resilience-cache/src)}.
 try.py <variant> [seeds...]: apply a hand-written rewrite of the cache crate to the scratch copy, build the c10 driver
@@ -180,6 +180,83 @@ def v_fifo_wrong_after_8():
         "            (if self.order.len() > 8 { self.order.pop_back() } else { self.order.pop_front() }).and_then(|old_key| {")
 
 
+YIELD = """
+struct YieldOnce(bool);
+impl std::future::Future for YieldOnce {
+    type Output = ();
+    fn poll(mut self: std::pin::Pin<&mut Self>, cx: &mut Context<'_>) -> Poll<()> {
+        if self.0 { Poll::Ready(()) } else { self.0 = true; cx.waker().wake_by_ref(); Poll::Pending }
+    }
+}
+"""
+
+
+def v_yield_after_insert():
+    """H8 (review 2, D4): the miss future yields once between the insert and returning"""
+    lib = SRC + '/lib.rs'
+    sub(lib, "            if was_evicted {\n", "            YieldOnce(false).await;\n            if was_evicted {\n")
+    open(lib, 'a').write(YIELD)
+
+
+def v_yield_before_insert():
+    """H9: the miss future yields once after the inner call completed, before the insert"""
+    lib = SRC + '/lib.rs'
+    sub(lib, "            // Store successful response in cache\n", "            YieldOnce(false).await;\n            // Store successful response in cache\n")
+    open(lib, 'a').write(YIELD)
+
+
+def v_sampled_lfu64():
+    """B6 (review 2, D1): LFU victim searched among the first 64 entries only"""
+    sub(SRC + '/eviction.rs', "            .iter()\n            .min_by_key", "            .iter()\n            .take(64)\n            .min_by_key")
+
+
+def v_sampled_lfu128():
+    """B6b: LFU victim searched among the first 128 entries only"""
+    sub(SRC + '/eviction.rs', "            .iter()\n            .min_by_key", "            .iter()\n            .take(128)\n            .min_by_key")
+
+
+def v_lfu_u8():
+    """B7 (review 2, D3): LFU counters are u8 and wrap"""
+    ev = SRC + '/eviction.rs'
+    s = open(ev).read()
+    s = s.replace("frequencies: HashMap<K, usize>,", "frequencies: HashMap<K, u8>,")
+    s = s.replace("*self.frequencies.entry(key.clone()).or_insert(0) += 1;", "{ let c = self.frequencies.entry(key.clone()).or_insert(0); *c = c.wrapping_add(1); }")
+    open(ev, 'w').write(s)
+
+
+def v_lfu_sat15():
+    """B7b: LFU counters saturate at 15"""
+    ev = SRC + '/eviction.rs'
+    s = open(ev).read()
+    s = s.replace("*self.frequencies.entry(key.clone()).or_insert(0) += 1;", "{ let c = self.frequencies.entry(key.clone()).or_insert(0); *c = (*c + 1).min(15); }")
+    open(ev, 'w').write(s)
+
+
+def v_ttl_micros():
+    """B8 (review 2, D2): TTL test truncated to microseconds"""
+    sub(SRC + '/store.rs', "self.inserted_at.elapsed() > ttl", "self.inserted_at.elapsed().as_micros() > ttl.as_micros()")
+
+
+def _reserve(front):
+    ev = SRC + '/eviction.rs'
+    sub(ev, "    /// Returns the current number of entries.\n    fn len(&self) -> usize;",
+        "    /// Makes room for one entry if the store is full.\n    fn make_room(&mut self) {}\n\n    /// Returns the current number of entries.\n    fn len(&self) -> usize;")
+    sub(ev, "impl<K: Hash + Eq + Clone + Send, V: Send> EvictionStore<K, V> for FifoStore<K, V> {",
+        "impl<K: Hash + Eq + Clone + Send, V: Send> EvictionStore<K, V> for FifoStore<K, V> {\n    fn make_room(&mut self) {\n        if self.data.len() >= self.capacity {\n            if let Some(k) = self.order.%s() { self.data.remove(&k); }\n        }\n    }" % ("pop_front" if front else "pop_back"))
+    sub(SRC + '/store.rs', "    /// Returns the current number of entries in the cache.\n", "    pub(crate) fn make_room(&mut self) {\n        self.store.make_room();\n    }\n\n    /// Returns the current number of entries in the cache.\n")
+    sub(SRC + '/lib.rs', "        let future = self.inner.call(req);\n        let store = Arc::clone(&self.store);", "        self.store.lock().unwrap().make_room();\n        let future = self.inner.call(req);\n        let store = Arc::clone(&self.store);")
+
+
+def v_reserve_right():
+    """H10 (review 2, A1): FIFO makes room in call() at miss time, evicting the first-in entry"""
+    _reserve(True)
+
+
+def v_reserve_wrong():
+    """B9 (review 2, A1): FIFO makes room in call() at miss time, evicting the NEWEST entry"""
+    _reserve(False)
+
+
 VARIANTS = {k[2:]: v for k, v in globals().items() if k.startswith('v_')}
 
 
@@ -199,7 +276,7 @@ def main():
     shutil.rmtree(SRC)
     shutil.copytree(BASE + '/orig-src', SRC)
     for f in os.listdir(SRC):
-        os.utime(os.path.join(SRC, f))      # copytree keeps mtimes: cargo would not rebuild a reverted crate
+        os.utime(os.path.join(SRC, f))
     VARIANTS[name]()
     r = subprocess.run("cargo build --release --offline --bin c10", shell=True, cwd=BASE + '/hsrc',
                        env=dict(os.environ, CARGO_TARGET_DIR=BASE + '/target', CARGO_NET_OFFLINE="true"),
